@@ -51,11 +51,23 @@ def main():
         print('REJECT: no demo.py')
         return 2
     rc_d1, out_d1 = sh('{} demo.py'.format(PY), cwd=wt)
-    sh('git stash', cwd=wt)
+    # revert / re-apply through a patch file (git stash is shared between worktrees of one repository)
+    import tempfile
+    with tempfile.NamedTemporaryFile('w', suffix='.diff', delete=False) as tf:
+        tf.write(diff)
+        pf = tf.name
+    rc_r, out_r = sh('git apply -R {}'.format(pf), cwd=wt)
+    if rc_r != 0:
+        print('cannot revert patch:', out_r)
+        os.unlink(pf)
+        return 2
     try:
         rc_d0, out_d0 = sh('{} demo.py'.format(PY), cwd=wt)
     finally:
-        sh('git stash pop', cwd=wt)
+        rc_a, out_a = sh('git apply {}'.format(pf), cwd=wt)
+        os.unlink(pf)
+        if rc_a != 0:
+            print('WARNING: could not re-apply patch:', out_a)
     print('demo with change: exit', rc_d1, '| without change: exit', rc_d0)
     confirmed = tests_ok and rc_d1 != 0 and rc_d0 == 0
     print('CONFIRMED' if confirmed else 'NOT CONFIRMED')
